@@ -210,6 +210,12 @@ pub fn run(cx: &RunCtx) -> i32 {
         super::c15ref::family(acc, &mine);
     });
     acc.merge(racc0);
+    let iwords: Vec<String> = all_inputs(&['a', '1', '2', 'x'], cx.t(6, 7)).iter().map(|w| w.iter().collect()).collect();
+    let iacc = for_each_index(16, cx.threads, 1, |acc, shard| {
+        let mine: Vec<String> = iwords.iter().skip(shard).step_by(16).cloned().collect();
+        super::c15ref::iter_family(acc, &mine);
+    });
+    acc.merge(iacc);
 
     // C01-class grammars with providers inserted at random nodes and probes everywhere
     let n_rand = cx.t(20_000, 400_000);
